@@ -408,6 +408,8 @@ func (m *RModel) extLib(fn *ssa.Function, name string, args []Value) (Value, boo
 			return us[0], true
 		}
 		return Iface{}, true
+	case "(*sync.Map).Load", "(*sync.Map).Store", "(*sync.Map).LoadOrStore", "(*sync.Map).Delete", "(*sync.Map).LoadAndDelete", "(*sync.Map).Range", "(*sync.Map).Swap", "(*sync.Map).Clear":
+		return m.syncMap(name[len("(*sync.Map)."):], args), true
 	case "os.Getenv":
 		return "", true
 	case "(*sync.Mutex).Lock", "(*sync.Mutex).Unlock", "(*sync.RWMutex).Lock", "(*sync.RWMutex).Unlock",
@@ -420,4 +422,73 @@ func (m *RModel) extLib(fn *ssa.Function, name string, args []Value) (Value, boo
 		return m.it.syncOp(name, args), true
 	}
 	return nil, false
+}
+
+// syncMap models sync.Map with an interpreter map kept in a side table keyed by
+// the receiver (sequential semantics; its operations are atomic).
+func (m *RModel) syncMap(op string, args []Value) Value {
+	recv, _ := args[0].(*Value)
+	if recv == nil {
+		panic(runtimePanic("invalid memory address or nil pointer dereference"))
+	}
+	if m.syncMaps == nil {
+		m.syncMaps = map[*Value]*Map{}
+	}
+	mp := m.syncMaps[recv]
+	if mp == nil {
+		mp = newMap()
+		m.syncMaps[recv] = mp
+	}
+	if m.it.shared != nil && m.it.shared[recv] && (op == "Store" || op == "LoadOrStore" || op == "Delete" || op == "LoadAndDelete" || op == "Swap" || op == "Clear") {
+		// a concurrent-safe container: not an unguarded write
+	}
+	switch op {
+	case "Load":
+		v, ok := mp.get(args[1])
+		if !ok {
+			return Tuple{Iface{}, false}
+		}
+		return Tuple{v, true}
+	case "Store":
+		mp.set(args[1], args[2])
+		return nil
+	case "LoadOrStore":
+		if v, ok := mp.get(args[1]); ok {
+			return Tuple{v, true}
+		}
+		mp.set(args[1], args[2])
+		return Tuple{args[2], false}
+	case "Swap":
+		old, ok := mp.get(args[1])
+		mp.set(args[1], args[2])
+		if !ok {
+			return Tuple{Iface{}, false}
+		}
+		return Tuple{old, true}
+	case "Delete":
+		mp.del(args[1])
+		return nil
+	case "LoadAndDelete":
+		v, ok := mp.get(args[1])
+		mp.del(args[1])
+		if !ok {
+			return Tuple{Iface{}, false}
+		}
+		return Tuple{v, true}
+	case "Clear":
+		m.syncMaps[recv] = newMap()
+		return nil
+	case "Range":
+		for i, k := range mp.keys {
+			if !mp.live[i] {
+				continue
+			}
+			r := m.it.callValue(args[1], []Value{k, mp.vals[i]})
+			if b, ok := r.(bool); ok && !b {
+				break
+			}
+		}
+		return nil
+	}
+	panic(abortPath{"sync.Map." + op})
 }
